@@ -64,9 +64,14 @@ def run(ctx):
     rng = random.Random(ctx["seed"] + 9)
 
     def relevant(case, dv):
-        return dv["field"] in ("engine-panic", "bestmove-line", "best_move", "model-setup", "engine-setup-panic")
+        return dv["field"] in ("engine-panic", "bestmove-count", "bestmove-illegal", "bestmove-line", "best_move", "model-setup", "engine-setup-panic")
+
+    def internal(case, dv):
+        # WHICH legal move is announced is not fixed by the property: only that there is exactly one and that it is legal
+        return dv["field"] in ("bestmove-line", "best_move", "model-setup")
     r = SP.corr(ctx, prop, ("value", "budget", "timer", "cut"), relevant,
-                "search answer (panic / bestmove line / chosen move) differs from the model", violations, cov)
+                "search answer (panic / number of bestmove lines / legality of the announced move; the chosen move vs the model)", violations, cov,
+                internal=internal)
     # the time-management budget: engine vs the model's formula (model/Go.v), both colours
     if r is not None:
         tc = [(c, e) for c, e in zip(r["cases"], r["engine"]) if c["group"] == "timer"]
